@@ -191,7 +191,7 @@ func genIdent(o *Out, tier string, r *Rng) {
 	// 4. random structured server names, user IDs, room IDs
 	n := 800
 	if thorough {
-		n = 60000
+		n = 30000
 	}
 	for i := 0; i < n; i++ {
 		s := r.genServerName()
